@@ -5,6 +5,7 @@ import os
 import signal
 import sys
 from abc import ABC, abstractmethod
+from contextlib import contextmanager
 from dataclasses import dataclass, field
 from enum import StrEnum, auto
 from itertools import count
@@ -113,6 +114,26 @@ def split_done_futures(futures: Sequence[Future]) -> tuple[list[Future], list[Fu
     return (done_futures, not_done_futures)
 
 
+@contextmanager
+def _sigint_blocked() -> Iterator[None]:
+    """Blocks SIGINT in the calling thread for the duration of the
+    context. A process started inside the context inherits the blocked
+    signal (under both fork and spawn), so a Ctrl-C sent to the whole
+    foreground process group cannot interrupt it before it has chosen to
+    ignore SIGINT (see ProcessRunner._subprocess_func). Unlike ignoring
+    the signal, blocking does not lose a Ctrl-C meant for the calling
+    process: it stays pending and is delivered when unblocked."""
+    if not hasattr(signal, 'pthread_sigmask'):
+        # Signal masks are not supported on this platform (Windows).
+        yield
+        return
+    original_mask = signal.pthread_sigmask(signal.SIG_BLOCK, {signal.SIGINT})
+    try:
+        yield
+    finally:
+        signal.pthread_sigmask(signal.SIG_SETMASK, original_mask)
+
+
 def _subprocess_target(*, future_id: int, thunk: Callable[[], Any], result_queue: Queue) -> None:
     try:
         result = thunk()
@@ -158,7 +179,8 @@ class ProcessExecutor:
             # started (so that it is waited for, or stopped).
             try:
                 self._running_id_to_future_and_process[future.id] = (future, process)
-                process.start()
+                with _sigint_blocked():
+                    process.start()
             finally:
                 if process.pid is None:
                     self._running_id_to_future_and_process.pop(future.id, None)
@@ -352,6 +374,10 @@ class ProcessRunner(Runner, ABC):
                          storage: Storage, process_event_queue: Queue,
                          log_queue: Queue) -> TaskResult:
         signal.signal(signal.SIGINT, signal.SIG_IGN)
+        if hasattr(signal, 'pthread_sigmask'):
+            # SIGINT was blocked while this process was started, now
+            # that it is ignored it no longer needs to be.
+            signal.pthread_sigmask(signal.SIG_UNBLOCK, {signal.SIGINT})
         # Subprocesses should log onto the queue in order to printed
         # in serial by the main process.
         logger.handlers = []
